@@ -221,7 +221,10 @@ func (g *generator) writePackage() error {
 	if r, err = g.w.Write(g.tf.Package.Expression.Value + "\n\n"); err != nil {
 		return err
 	}
-	g.sourceMap.Add(g.tf.Package.Expression, r)
+	if g.tf.Package.Expression.Range != (parser.Range{}) {
+		// A file without a package clause of its own has an empty package expression with no source position.
+		g.sourceMap.Add(g.tf.Package.Expression, r)
+	}
 	if _, err = g.w.Write("//lint:file-ignore SA4006 This context is only used if a nested component is present.\n\n"); err != nil {
 		return err
 	}
